@@ -576,7 +576,7 @@ def wrap_groups(ctx, rng):
     """Well-formedness of a model evaluated through Numerics.make_extrap_func and make_extrap_log_func with a single grid size,
     given as the one-entry list [pts] and as the scalar pts: the full clause set of an evaluation (finite, non-negative on the fine
     grid, shape, tagged for extrapolation, unfolded) applies to what the wrapper returns.  A representative subset in quick (per
-    module and number of populations: three models with 1 or 2 populations, two with 3), every model in thorough; parameters in the
+    module and number of populations: six models with 1 or 2 populations, four with 3), every model in thorough; parameters in the
     regime of the swap calibration (short epochs) so that the fine-grid evaluations are fast."""
     ms = models()
     groups, cnt = [], {}
@@ -588,7 +588,7 @@ def wrap_groups(ctx, rng):
             continue
         key = (q.split('.')[0], P)
         cnt[key] = cnt.get(key, 0) + 1
-        if ctx.quick and cnt[key] > (3 if P <= 2 else 2):
+        if ctx.quick and cnt[key] > (6 if P <= 2 else 4):
             continue
         names = list(f.__param_names__)
         p = draw_swap_params(rng, names)
